@@ -601,9 +601,19 @@ def random_run(rng, *, kinds=("plain",), n_models=2, n_ids=3, length=40, mods="c
     d = Driver()
     prog = []
 
+    REPEATABLE = ("join", "leave", "move", "move_to", "agents_at", "lookup", "get_agents", "register", "register_raw", "deregister_raw")
+
     def do(op):
         prog.append(op)
+        before = len(d.events)
         getattr(d, "op_" + op[0])(*op[1:])
+        # callers retry: an operation that was refused is asked once more as it is (one time in three), and one that went
+        # through is sometimes simply repeated
+        if op[0] in REPEATABLE and len(d.events) > before:
+            refused = d.events[-1].get("out") != "ok"
+            if rng.random() < (0.33 if refused else 0.08):
+                prog.append(list(op))
+                getattr(d, "op_" + op[0])(*op[1:])
 
     worlds = {}
     pending_install = []
@@ -723,6 +733,11 @@ def random_run(rng, *, kinds=("plain",), n_models=2, n_ids=3, length=40, mods="c
         elif op == "move" and cls != "plain":
             dd = [rng.choice(delta_pool(e, fine)) if rng.random() < 0.6 else 0 for e in ext]
             do(["move", a, dd])
+            if rng.random() < 0.25:
+                # the same step again after the agent was put somewhere else by an absolute move
+                p2 = [(rng.randint(0, max(e - (0 if fine else 1), 0)) if e else 0) for e in ext]
+                do(["move_to", a, p2])
+                do(["move", a, dd])
         elif op == "move_to" and cls != "plain":
             p = [rng.choice(coord_pool(e, fine)) if rng.random() < 0.5 else
                  (rng.randint(0, max(e - (0 if fine else 1), 0)) if e else 0) for e in ext]
@@ -751,6 +766,40 @@ def random_run(rng, *, kinds=("plain",), n_models=2, n_ids=3, length=40, mods="c
             else:
                 do([op, m, tpl, tag])
     return prog, d.events
+
+
+def crowd_program(rng, n_agents=14, length=70):
+    """One plain model, many carriers of the same component type (some carry a second one): the population grows beyond ten,
+    shrinks to a handful and grows again, with joins and leaves in between (listings of more than a few entries)."""
+    prog = [["model", "m1", "plain", [0, 0, 0], False]]
+    ser = 0
+    agents = []
+    for k in range(n_agents):
+        a = ["c%d" % k, 1]
+        agents.append(a)
+        prog.append(["agent", a, "m1", None])
+        ser += 1
+        prog.append(["attach", a, "A", ser, False])
+        if k % 3 == 0:
+            ser += 1
+            prog.append(["attach", a, "B", ser, False])
+    inside = []
+    target = n_agents - 2
+    for step in range(length):
+        if step == length // 3:
+            target = 4
+        if step == 2 * length // 3:
+            target = n_agents - 1
+        grow = len(inside) < target if rng.random() < 0.8 else rng.random() < 0.5
+        if grow and len(inside) < n_agents:
+            a = rng.choice([x for x in agents if x not in inside])
+            inside.append(a)
+            prog.append(["join", a, None])
+        elif inside:
+            a = rng.choice(inside)
+            inside.remove(a)
+            prog.append(["leave", "m1", a[0]])
+    return prog
 
 
 def tamper(trace, rng):
